@@ -22,7 +22,8 @@ EXPLANATION = ("Named arguments. R1 (exhaustive over every generator macro defin
                "not a part) and skips its full length, the i-th piece is stored as the value of the i-th pair and the remainder as "
                "the last one; the values are sanitised only after the split (the separator itself is non-printable)."
                " R3g-i: the JSON sink's template copy, its newline rewrite, and the key/value loop exactly when a list exists. R4f: the splitter keeps nothing between statements. R5b: the escaped-brace test is made on the first '{' found from first + 1 on, only when one was found. R7t-R9 (= C03.R4t, C10.R2, C14.R1h): the pairs travel with the event and never stay behind in a slot; the JSON line is written whole."
-               ' R10 (= C12.R9a): a statement with named placeholders made through LOG_RUNTIME_METADATA is delivered like any other.')
+               ' R10 (= C12.R9a): a statement with named placeholders made through LOG_RUNTIME_METADATA is delivered like any other.'
+               " R11 (= C12.R5): a statement with named args is handed to the sinks whole, decided from the event's named-args list.")
 TECHNIQUE = 'static analysis: custom checker over clang AST/CFG facts (macro-expansion witnesses, join/split agreement, path rules) plus a compile-time witness (static_assert table of 30k templates evaluated by the compiler) for the constexpr named-args flag'
 NOT_DECIDED = ("The brace scanner for every template, values that contain the whole three-byte separator (a known dynamic risk: R4 "
                "decides that join and split agree on the separator, not that no value contains it), JSON escaping (excluded by the "
